@@ -30,7 +30,8 @@ Step(s, e) ==
                \* bytes than the stream has there was (re-)read from memory that was not the chunker's any more
                bad |-> When(e.k = "D" /\ e.off <= Len(s.s) /\ Len(e.data) <= e.off
                             /\ e.data # SubSeq(s.s, e.off - Len(e.data) + 1, e.off),
-                            V("C05", "the bytes of a Data chunk are not the bytes of the stream at its position (memory reused or released under the StreamChunker)"))]
+                            V("C05", "the bytes of a Data chunk are not the bytes of the stream at its position (memory reused or released under the StreamChunker)")
+                            \cup V("C08", "a Data chunk does not hold the bytes of the stream at its position (the chunks do not tile the stream)"))]
     [] e.ev = "recheck" ->      \* after the arena moved on: every Data chunk handed out is still alive and unchanged
          LET ds == SelectSeq(s.cs, LAMBDA c : c.k = "D") IN
          [st |-> s,
